@@ -7,9 +7,12 @@ import pkgutil
 
 REGISTRY = {}
 TEXTS = {}
+DISABLED = set()      # registered (runnable) but not yet claimed in MANIFEST.json
 
 _d = os.path.join(os.path.dirname(__file__), 'parts')
 for _m in sorted(pkgutil.iter_modules([_d])):
     _mod = importlib.import_module('checks.parts.' + _m.name)
     REGISTRY[_m.name] = _mod.ENTRY
     TEXTS[_m.name] = _mod.TEXT
+    if not getattr(_mod, 'ENABLED', True):
+        DISABLED.add(_m.name)
